@@ -32,6 +32,7 @@ type RunSpec struct {
 	ReplayDir string `json:"replay_dir,omitempty"` // where replay files are written
 	Cross     bool   `json:"cross,omitempty"`      // cross-check final obligations with z3 4.8.12 and cvc5
 	Seed      int    `json:"seed,omitempty"`
+	RunID     int    `json:"run_id,omitempty"`
 }
 
 type OblResult struct {
@@ -373,7 +374,7 @@ func writeReplay(spec RunSpec, seq int, r *OblResult, model map[string]uint64, w
 		dir = os.TempDir()
 	}
 	os.MkdirAll(dir, 0o755)
-	name := fmt.Sprintf("%s-%s-%d.json", spec.Prop, strings.TrimPrefix(spec.Entry, "vrfH_"), seq)
+	name := fmt.Sprintf("%s-%s-r%d-%d.json", spec.Prop, strings.TrimPrefix(spec.Entry, "vrfH_"), spec.RunID, seq)
 	if spec.KnownMode != "" && spec.KnownMode != "exclude" {
 		name = "kf-" + name
 	}
